@@ -72,17 +72,30 @@ theorem C12_reject_no_money_no_records (guard : SplitGuard) (s : State) (op : Op
   rejected_view guard s op h4
 
 /-- A create that OpenCDR refuses is answered 400; what it leaves behind is exactly: the subscriber context (created
-    empty if the subscriber was unknown) with the request's notification address, and - for a session-based create -
-    one sequence number used up.  The number is deliberately not handed back: see `C10_refused_create_keeps_number`. -/
+    empty if the subscriber was unknown; left as it was, notification address included, if it was known) and - for a
+    session-based create - one sequence number used up.  The number is deliberately not handed back: see
+    `C10_refused_create_keeps_number`. -/
 theorem C12_refused_create (guard : SplitGuard) (s : State) (r : Req) (nf : Bytes) (hnf : r.nf = some nf)
     (hp : supiAccepted r.supi = true) (hb : r.bad = true) :
     (step guard s (.create r)).2 = { status := 400 } ∧
     (step guard s (.create r)).1 =
-      { s with ues := putUe s.ues { ueOr s r with notifyUri := r.uri },
+      { s with ues := putUe s.ues (ueOr s r),
                sessionSeq := if r.one then s.sessionSeq else s.sessionSeq + 1 } := by
   show (create s r).2 = _ ∧ (create s r).1 = _
   rw [create_bad s r nf hnf hp hb]
   exact ⟨rfl, rfl⟩
+
+/-- … so the context of a KNOWN subscriber is found unchanged after a refused create: the notification address its
+    consumer registered is still the one a recharge notifies (the defect repaired in dd83835: the address was
+    overwritten before OpenCDR ran) -/
+theorem C12_refused_create_keeps_address (guard : SplitGuard) (s : State) (r : Req) (nf : Bytes) (u : Ue)
+    (hnf : r.nf = some nf) (hp : supiAccepted r.supi = true) (hb : r.bad = true) (hu : findUe s.ues r.supi = some u) :
+    findUe (step guard s (.create r)).1.ues r.supi = some u := by
+  rw [(C12_refused_create guard s r nf hnf hp hb).2]
+  have e : ueOr s r = u := by unfold ueOr; rw [hu]
+  have hs : u.supi = r.supi := findUe_supi hu
+  simp only [e]
+  rw [← hs]; exact findUe_putUe_same _ _
 
 /-- An update or release naming an unknown subscriber is answered 400, naming an unknown (or stale, or
     foreign) session reference of a known subscriber 404. -/
@@ -129,8 +142,31 @@ theorem C12_one_time_event (guard : SplitGuard) (s : State) (r : Req) (nf : Byte
     (step guard s (.create r)).2.seq = some r.seq ∧
     (step guard s (.create r)).1.sessionSeq = s.sessionSeq ∧
     (step guard s (.create r)).1.accts = s.accts ∧
-    (step guard s (.create r)).1.localSeq = s.localSeq + 1 := by
-  simp [step, create, hnf, hp, hone, hbad]
+    (step guard s (.create r)).1.localSeq = s.localSeq + 1 ∧
+    ∃ ue', findUe (step guard s (.create r)).1.ues r.supi = some ue' ∧ ue'.cdr = (ueOr s r).cdr := by
+  have hex : ∃ ue', findUe (step guard s (.create r)).1.ues r.supi = some ue' ∧ ue'.cdr = (ueOr s r).cdr := by
+    obtain ⟨ue', rec1, sid, _, hues, _, _, hcdr, hsup⟩ := create_ok s r nf hnf hp hbad
+    refine ⟨ue', ?_, by rw [hcdr]; simp [hone]⟩
+    show findUe (create s r).1.ues r.supi = some ue'
+    rw [hues, ← ueOr_supi s r, ← hsup]; exact findUe_putUe_same _ _
+  refine ⟨?_, ?_, ?_, ?_, ?_, ?_, hex⟩ <;> simp [step, create, hnf, hp, hone, hbad]
+
+/-- The empty reference designates nothing, in every state any history can reach: an update or release addressed to it
+    is never accepted (400 for an unknown subscriber, 404 otherwise) and, by `C12_reject_no_effect`, has no effect - also
+    right after a one-time event, whose Location ends in that empty reference (the defect repaired in 02d3fe6: the event's
+    record was registered under it). -/
+theorem C12_empty_reference_unknown (guard : SplitGuard) (ops : List Op) (accts : Abmf.Store) (tariffs : List Rating.Tariff)
+    (r : Req) :
+    let s := run guard { accts := accts, tariffs := tariffs } ops
+    ((step guard s (.update [] r)).2.status = 400 ∨ (step guard s (.update [] r)).2.status = 404) ∧
+    ((step guard s (.release [] r)).2.status = 400 ∨ (step guard s (.release [] r)).2.status = 404) := by
+  intro s
+  have hinv : NoEmptyKey s := NoEmptyKey_run guard ops _ (by intro u hu; simp at hu)
+  cases hu : findUe s.ues r.supi with
+  | none => exact ⟨Or.inl (C12_unknown_subscriber guard s [] r hu).1, Or.inl (C12_unknown_subscriber guard s [] r hu).2⟩
+  | some ue =>
+    have hl : lookupSid ue.cdr [] = none := lookupSid_none_of_not_key (hinv ue (mem_of_findUe hu))
+    exact ⟨Or.inr (C12_unknown_session guard s [] r ue hu hl).1, Or.inr (C12_unknown_session guard s [] r ue hu hl).2⟩
 
 /-- An accepted update: 200 with the sequence number echoed. -/
 theorem C12_update (guard : SplitGuard) (s : State) (sid : Bytes) (r : Req) (ue : Ue) (idx : Nat)
